@@ -68,11 +68,24 @@ func freshUnsupported(rng *Rng) reflect.Value {
 	return reflect.New(reflect.StructOf(fields)).Elem()
 }
 
+// error classes: error texts are not compared (they may hold addresses), but a Go run-time
+// error (nil dereference, index out of range) is a different outcome from a reported failure
 func errness(err error) string {
 	if err == nil {
 		return "ok"
 	}
+	if strings.Contains(err.Error(), "runtime error") || strings.Contains(err.Error(), "invalid memory address") {
+		return "ERR-RUNTIME"
+	}
 	return "ERR"
+}
+
+// a declared recursive type whose unsupported field comes last: pointer and slice iterators for
+// it are generated (and cached) while the generation of the type itself is still in flight
+type unsupportedTree struct {
+	Name     string
+	Children []*unsupportedTree
+	Notify   chan int
 }
 
 type reuseOp struct {
@@ -93,24 +106,30 @@ func genValueOp(rng *Rng, marshal func(inst interface{}, v interface{}) ([]byte,
 		return reuseOp{"unsupported-fresh-type " + v.Type().String(), func(inst interface{}) string {
 			d, err := marshal(inst, v.Interface())
 			if err != nil {
-				return "ERR"
+				return errness(err)
 			}
 			return "ok " + hx(d)
 		}}
 	case 1:
 		var v interface{}
-		switch rng.Intn(3) {
+		switch rng.Intn(6) {
 		case 0:
 			v = unsupportedA{A: 1}
 		case 1:
 			v = &unsupportedB{S: "x"}
-		default:
+		case 2:
 			v = []unsupportedC{{}}
+		case 3:
+			v = unsupportedTree{Name: "t"}
+		case 4:
+			v = &unsupportedTree{Name: "t"}
+		default:
+			v = []*unsupportedTree{{Name: "a"}}
 		}
 		return reuseOp{fmt.Sprintf("unsupported %T", v), func(inst interface{}) string {
 			d, err := marshal(inst, v)
 			if err != nil {
-				return "ERR"
+				return errness(err)
 			}
 			return "ok " + hx(d)
 		}}
@@ -122,7 +141,7 @@ func genValueOp(rng *Rng, marshal func(inst interface{}, v interface{}) ([]byte,
 		return reuseOp{"value " + ty.String(), func(inst interface{}) string {
 			d, err := marshal(inst, val.Interface())
 			if err != nil {
-				return "ERR"
+				return errness(err)
 			}
 			return "ok " + hx(d)
 		}}
